@@ -788,13 +788,119 @@ def len_guard(S, is_buf, ctx=None):
     return best
 
 
+
+def mentions_read(fa, e, depth=3):
+    """the expression contains the result of Read::read, directly or through a loop-carried local (('rec', l): a local whose value
+    at this point is defined later in the loop)"""
+    if contains(e, lambda y: is_call(y, 'Read>::read')):
+        return True
+    if depth == 0:
+        return False
+    for y in walk(e):
+        if isinstance(y, tuple) and len(y) == 2 and y[0] == 'rec' and isinstance(y[1], int):
+            for (bb, kk, part) in fa.defs().get(y[1], []):
+                if mentions_read(fa, fa.def_value(y[1], bb, kk), depth - 1):
+                    return True
+    return False
+
+
+def is_running_total(e):
+    return contains(e, lambda y: isinstance(y, tuple) and y and (y[0] == 'phi' or (y[0] == 'bin' and y[1] in ('Add', 'AddWithOverflow'))))
+
+
+VEC_GROWERS = ('resize', 'resize_with', 'extend', 'extend_from_slice', 'extend_from_within', 'push', 'append', 'insert', 'set_len', 'reserve', 'splice')
+
+
+def truncated_to_read(fa, src, bdes):
+    """the other form of `&buf[..bytes_read]`: the whole read buffer after `buf.truncate(bytes_read)`; the single truncate dominates
+    the deserialize call, its length argument is the result of the read, and no call that can grow a Vec receives the buffer"""
+    seen = set()
+    work = [x[1] for x in walk(src) if isinstance(x, tuple) and x and x[0] == 'local']
+    bufs = set()
+    while work:
+        l = work.pop()
+        if l in seen:
+            continue
+        seen.add(l)
+        for (bb, kk, part) in fa.defs().get(l, []):
+            d = fa.def_value(l, bb, kk)
+            if is_call(d, 'from_elem'):
+                bufs.add(l)
+            for x in walk(d):
+                if isinstance(x, tuple) and x and x[0] == 'local':
+                    work.append(x[1])
+    if len(bufs) != 1:
+        return False
+    buf = next(iter(bufs))
+    trunc = []
+    for (b, f, a, t) in calls(fa):
+        cs = callee_str(f)
+        for i, x in enumerate(a):
+            if x[0] == 'ref' and x[1] == ('local', buf):
+                if cs.endswith('Vec::<T, A>::truncate') and i == 0:
+                    trunc.append((b, a))
+                elif cs.split('::')[-1] in VEC_GROWERS:
+                    return False
+    if len(trunc) != 1:
+        return False
+    tb, ta = trunc[0]
+    return mentions_read(fa, ta[1]) and fa.cfg.dominates(tb, bdes)
+
+
+def check_read_until_full(ctx, rep, fs, fa):
+    an = ctx.an
+    reads = [b for (b, f, a, t) in calls(fa) if callee_str(f).endswith('Read>::read') and 'ZlibDecoder' in callee_str(f)]
+    des = [b for (b, f, a, t) in calls(fa) if callee_str(f).endswith('Options::deserialize')]
+    if len(reads) != 1 or len(des) != 1:
+        rep.fail_closed('C11.R8', 'from_str: one decoder read site and one deserialize site (found %d / %d)' % (len(reads), len(des)))
+        return
+    r, d = reads[0], des[0]
+    loops = fa.cfg.loops()
+    inl = [(h, body) for h, body in loops.items() if r in body]
+    rep.ob('C11.R8', fs, 'read-in-a-loop', bool(inl), 'the Read::read call on the decoder is %sinside a loop' % ('' if inl else 'not '))
+    if not inl:
+        return
+    h, body = min(inl, key=lambda x: len(x[1]))
+    pf = an.paths(fs, history=True, entry=h)
+
+    def is_read_result(e):
+        # the count returned by this iteration's read, not the running total
+        return mentions_read(fa, e) and not is_running_total(e)
+
+    def is_buf_len(e):
+        return contains(e, lambda y: isinstance(y, tuple) and y and y[0] == 'call' and (y[1].endswith('::len') or y[1].endswith('::capacity'))) or \
+            contains(e, lambda y: isinstance(y, tuple) and y and y[0] == 'cdef' and y[1] == 'maybenot::constants::MAX_DECOMPRESSED_SIZE')
+
+    def done(S):
+        for f in S:
+            if f[0] == 'cmp' and f[1] == 'eq' and f[5] is True and ((is_read_result(f[2]) and is_const(f[3], 0)) or (is_read_result(f[3]) and is_const(f[2], 0))):
+                return True     # n == 0: end of stream
+            if f[0] == 'eqc' and is_read_result(f[1]) and str(f[2]) in ('0', '[0]', '(0,)'):
+                return True
+            if f[0] == 'cmp' and f[1] == 'lt' and f[5] is False and is_buf_len(f[3]) and not is_buf_len(f[2]):
+                return True     # !(filled < buf.len()): buffer full
+            if f[0] == 'cmp' and f[1] == 'le' and f[5] is True and is_buf_len(f[2]) and not is_buf_len(f[3]):
+                return True     # buf.len() <= filled
+        return False
+    n = 0
+    for x in sorted(body):
+        for (y, lab) in fa.cfg.succ[x]:
+            if y in body or not fa.cfg.can_reach(y, d):
+                continue
+            for S in pf.on_edge(x, y, lab):
+                n += 1
+                ok = done(S)
+                rep.ob('C11.R8', fs, 'loop-exit-only-at-eof-or-full', ok, '' if ok else 'the read loop is left towards deserialize without a 0-byte read or a full buffer: %s' % show_facts(S))
+    rep.count_floor('C11.R8', 'exits of the read loop towards deserialize', n, 1)
+
+
 def check_C11(ctx, rep):
     prog, an = ctx.prog, ctx.an
     rep.rule('C11.R1', 'writer/reader agreement: serialize and from_str build the same bincode options (same resolved calls, same limit constant), '
              'use the same base64 engine constant, the same VERSION constant, and a zlib encoder resp. decoder')
-    rep.rule('C11.R2', 'bounded inflate: in from_str the ZlibDecoder value is only constructed and read through one Read::read into a buffer of '
-             'exactly MAX_DECOMPRESSED_SIZE bytes; no read_to_end/read_to_string/bytes/take/copy is applied to it; bincode deserialises '
-             'buf[..bytes_read] with the limit')
+    rep.rule('C11.R2', 'bounded inflate: in from_str the ZlibDecoder value is only constructed and read through one Read::read site into (a tail of) a '
+             'buffer of exactly MAX_DECOMPRESSED_SIZE bytes that nothing can grow; no read_to_end/read_to_string/bytes/take/copy is applied to it; bincode deserialises '
+             'buf[..bytes_read] (or the buffer truncated to bytes_read) with the limit')
     rep.rule('C11.R3', 'every Ok of from_str, Machine::new and the v1 parser is behind Machine::validate on the returned value (= C12.R2)')
     rep.rule('C11.R4', 'derive completeness: every crate-local type reachable from Machine\'s fields has derived Serialize and Deserialize and '
              'no serde attribute (skip/default/with/rename ...); name() is digest(serialize())')
@@ -889,9 +995,16 @@ def check_C11(ctx, rep):
         if callee_str(f).endswith('Options::deserialize'):
             src = a[1]
             ok = contains(src, lambda x: isinstance(x, tuple) and x and x[0] == 'agg' and x[2] == 'RangeTo') and contains(src, lambda x: is_call(x, 'Read>::read'))
+            if not ok:
+                ok = truncated_to_read(fa, src, b)
             rep.ob('C11.R2', fs, 'deserialises-only-bytes-read', ok, 'deserialize(%s)' % shape(src))
             okl = contains(a[0], lambda x: is_call(x, 'with_limit'))
             rep.ob('C11.R2', fs, 'deserialises-with-limit', okl, '')
+    # ---- R8: completeness of the bounded read (finding F8)
+    rep.rule('C11.R8', 'the bounded read is repeated until the buffer is full or the stream ends: Read::read may return after any part of '
+             'the payload (flate2 consumes its input in 32 KiB blocks), so the call sits in a loop and every way out of that loop towards '
+             'the deserialisation has just seen a read of 0 bytes, or the fill count reach the buffer length (error returns excepted)')
+    check_read_until_full(ctx, rep, fs, fa)
     # ---- R3
     check_validate_before_ok(ctx, rep, 'C11.R3')
     rep.rule('C11.R7', 'Machine::new stores each parameter in the same-named field; the v1 parser passes its decoded header values in that order; '
